@@ -514,8 +514,10 @@ func checkInference(c *wk.Case, f *sfnt.Font, eff []string, cnt map[string]int, 
 					continue
 				}
 				c.Count("inference_judged_ligature", 1)
-				if got[g] != want {
-					c.Fail("names-inference", "MakeGlyphNames/ligature", "glyph %d has no name and no character and is the result of one ligature rule only, with component names %q: MakeGlyphNames returns %q instead of %q", g, parts, got[g], want)
+				// (another ligature with the same components may have taken
+				// the plain name first: a variant of it is as good)
+				if got[g] != want && !strings.HasPrefix(got[g], want+".") {
+					c.Fail("names-inference", "MakeGlyphNames/ligature", "glyph %d has no name and no character and is the result of one ligature rule only, with component names %q: MakeGlyphNames returns %q instead of %q or a variant of it", g, parts, got[g], want)
 				}
 			} else {
 				c.Count("inference_judged_variant", 1)
